@@ -56,6 +56,12 @@ pub struct Acc {
     samples: Option<Samples>,
 }
 
+impl Acc {
+    pub fn violations(&self) -> &Vec<(String, String, J)> {
+        &self.viol
+    }
+}
+
 fn check_pair(acc: &mut Acc, raw: &DFA, min: &DFA, what: &str, text: &str, shell: Shell) {
     acc.automata += 1;
     let mut syms = HashMap::new();
@@ -222,6 +228,23 @@ pub fn run(tier: Tier) -> Report {
         || Acc { samples: Some(Samples::new(3)), ..Default::default() },
         |acc, g| work(acc, g, Shell::Bash),
     );
+    // supplementary seeded random tier of larger trees (can only add violations)
+    let n_random = tier.pick(150_000usize, 3_000_000usize);
+    let seed = crate::report::seed();
+    let raccs = crate::par::run(
+        n,
+        |push| crate::fam::random_grammars(seed, n_random, &mut |g| push(g)),
+        || Acc::default(),
+        |acc, g| work(acc, g, Shell::Bash),
+    );
+    let mut r_auto = 0u64;
+    let mut r_merged = 0u64;
+    let mut r_viol: Vec<(String, String, J)> = vec![];
+    for a in raccs {
+        r_auto += a.automata;
+        r_merged += a.merged;
+        r_viol.extend(a.viol);
+    }
     let mut t = Acc { samples: Some(Samples::new(12)), ..Default::default() };
     for a in accs {
         t.grammars += a.grammars;
@@ -240,6 +263,19 @@ pub fn run(tier: Tier) -> Report {
     for (k, s, d) in &t.viol {
         rep.violation(k, s.clone(), d.clone());
     }
+    for (k, s, d) in &r_viol {
+        rep.violation(k, format!("[random tier, seed {seed}] {s}"), d.clone());
+    }
+    rep.cov(
+        "supplementary_random",
+        J::obj(vec![
+            ("seed", J::i(seed as i64)),
+            ("grammars", J::i(n_random as i64)),
+            ("automata_checked", J::i(r_auto as i64)),
+            ("automata_where_minimisation_merged_states", J::i(r_merged as i64)),
+            ("note", J::s("random trees of 8..23 nodes over {a, b, d, <U>, cmd}, arity <= 4; not part of states/transitions/exhaustive")),
+        ]),
+    );
     rep.cov("states", J::i(t.states as i64));
     rep.cov("transitions", J::i(t.transitions as i64));
     rep.cov("traces_validated_against_impl", J::i(0));
